@@ -62,6 +62,18 @@ extern "C" void h_reserve_commit() {
     b.hasWritten(m); g.n += m;
     check(b, g); VP_REACH("reserve_commit");
 }
+// commit without (or beyond) a reservation: hasWritten(m) with any m from any valid state never moves the write index past the storage;
+// it makes min(m, writable) further storage bytes readable
+extern "C" void h_commit_any() {
+    Buffer b(CAP); Ghost g; mk(b, g);
+    unsigned long m = nondet_ulong(); VP_ASSUME(m <= CAP + NMAX);
+    unsigned long wr = b.writableSize();
+    unsigned long k = m < wr ? m : wr;
+    for (unsigned long i = 0; i < k; i++) g.d[g.n + i] = b.writableBegin()[i];
+    g.n += k;
+    b.hasWritten(m);
+    check(b, g); VP_REACH("commit_any");
+}
 extern "C" void h_fetch() {
     Buffer b(CAP); Ghost g; mk(b, g);
     REQ(n);
